@@ -1123,6 +1123,7 @@ theorem step_inv (m : M) (opn : Nat) (w : WF m) : R.inv WF (step m opn) := by
   unfold step
   refine inv_ite trivial ?_
   refine inv_ite trivial ?_
+  refine inv_ite trivial ?_
   refine inv_ite (opPushBytes_inv _ _ w) ?_
   refine inv_ite (opPush0_inv _ w) ?_
   refine inv_ite (opPushData_inv _ _ w) ?_
